@@ -453,7 +453,7 @@ def model_strategy(max_n=30, builtins=True, runspecs=None, stock_builtins=True, 
                 st.tuples(st.sampled_from(["min", "max"]), sub, sub).map(lambda x: ["call", x[0], [x[1], x[2]]]),
                 st.tuples(st.sampled_from(E.CMPOPS[:4]), sub, st.sampled_from(NICE), sub, sub).map(
                     lambda x: ["if", ["cmp", x[0], x[1], ["num", x[2] + 0.125]], x[3], x[4]]),
-                sub.filter(lambda x: x[0] != "num").map(lambda x: ["call", "abs", [x]]),  # abs(<number>) is not DSL
+                sub.filter(lambda x: bool(E.refs(x))).map(lambda x: ["call", "abs", [x]]),  # abs(<number>) is not DSL
             )
 
         def numref():
